@@ -246,7 +246,7 @@ theorem zoneinfo_dst_witness :
 
 /-! Non-vacuity. -/
 -- date start, whole-day trigger stays a date; a 12 h DURATION alternates floating / date; lower-case
--- "end" (any value but "START") is end-relative; an absolute alarm; REPEAT 2 with a zero DURATION;
+-- "end" (any value but START in any case) is end-relative; an absolute alarm; REPEAT 2 with a zero DURATION;
 -- an alarm without TRIGGER contributes nothing
 example : (times (fun w => w) (componentState {} (some (.date 10)) (some (.date 11))
       [ { trigger := some (.rel (-86400)), rep := 2, duration := some 43200 },
@@ -257,6 +257,12 @@ example : (times (fun w => w) (componentState {} (some (.date 10)) (some (.date 
     = .ok [ .floating (11 * 86400 + 3600),
             .date 9, .floating (9 * 86400 + 43200), .date 10,
             .aware 5, .aware 5, .aware 5 ] := by decide
+-- RELATED is compared case-insensitively with START; every other value counts as END
+example : ({ trigger := some (.rel 0), related := some ['s', 't', 'a', 'r', 't'] } : VAlarm).isStartRel = true := by decide
+example : ({ trigger := some (.rel 0), related := some ['S', 't', 'a', 'r', 't'] } : VAlarm).isStartRel = true := by decide
+example : ({ trigger := some (.rel 0), related := some ['e', 'n', 'd'] } : VAlarm).isEndRel = true := by decide
+example : ({ trigger := some (.rel 0), related := some ['x'] } : VAlarm).isEndRel = true := by decide
+example : ({ trigger := some (.rel 0) } : VAlarm).isStartRel = true := by decide
 -- the documented errors, end first
 example : times (fun w => w) (componentState {} none none
       [ { trigger := some (.rel 0) }, { trigger := some (.rel 0), related := some ['E', 'N', 'D'] } ] false)
